@@ -70,6 +70,24 @@ CATALOGUE = {
     "name-cache-by-id": (["C18"], [("compiler/bitproto/renderer/formatter.py", "    def _get_definition_name(self, d: Definition) -> str:\n        \"\"\"Get definition name, name defined in its scope or its original name.\"\"\"\n",
                                     "    _NAME_CACHE: dict = {}\n\n    def _get_definition_name(self, d: Definition) -> str:\n        \"\"\"Get definition name, name defined in its scope or its original name.\"\"\"\n        if id(d) in Formatter._NAME_CACHE:\n            return Formatter._NAME_CACHE[id(d)]\n        Formatter._NAME_CACHE[id(d)] = d.scope_stack[-1].get_name_by_member(d) or d.name if d.scope_stack else d.name\n        return Formatter._NAME_CACHE[id(d)]\n")],
                          "process-global name cache keyed by id(): ids are reused after garbage collection"),
+    "go-getaccessor-depth": (["C19"], [("compiler/bitproto/renderer/impls/go/renderer.py",
+                                        "    def render_message(self, message: Message) -> None:\n        self.render_case()\n        data = self.format_data_ref()\n        self.push(f\"return &({data})\", indent=self.indent + 1)",
+                                        "    def render_message(self, message: Message) -> None:\n        self.render_case()\n        data = self.format_data_ref() if self.array_depth < 2 else self.format_data_ref().rsplit('[', 1)[0]\n        self.push(f\"return &({data})\", indent=self.indent + 1)")],
+                             "Go BpGetAccessor drops the last index for 2-D arrays of messages"),
+    "go-processint-d": (["C19"], [("compiler/bitproto/renderer/impls/go/renderer.py", "        d = self.formatter.get_nbits_of_integer(single) - single.nbits()\n        if d <= 0:",
+                                   "        d = self.formatter.get_nbits_of_integer(single) - single.nbits() + (1 if single.nbits() == 24 else 0)\n        if d <= 0:")],
+                        "Go standard-mode sign extension of int24 shifts by 9"),
+    "go-helper-mask": (["C19"], [("lib/go/bitproto.go", "	return (1 << ((k + 1 + c) - 1)) - (1 << ((k + 1) - 1))", "	return (1 << ((k + c) - 1)) - (1 << ((k + 1) - 1))")],
+                       "Go runtime getMask loses the top bit"),
+    "go-struct-unsorted": (["C19"], [("compiler/bitproto/renderer/impls/go/renderer.py",
+                                      "            BlockMessageField(field, indent=self.indent)\n            for field in self.d.sorted_fields()",
+                                      "            BlockMessageField(field, indent=self.indent)\n            for field in self.d.fields()")],
+                           "Go struct fields in declaration order"),
+    "go-setbyte-conv": (["C19"], [("compiler/bitproto/renderer/impls/go/renderer.py", "        if alias:\n            type_name = self.formatter.format_type(alias)\n\n        value = f\"{type_name}(b)\"",
+                                   "        if alias and self.array_depth == 0:\n            type_name = self.formatter.format_type(alias)\n\n        value = f\"{type_name}(b)\"")],
+                        "Go BpSetByte converts array-of-alias elements to the base type (type mismatch in Go)"),
+    "opt-go-sign-shift": (["C04", "C14"], [("compiler/bitproto/renderer/impls/go/formatter.py", "        d = self.get_nbits_of_integer(t) - n\n", "        d = self.get_nbits_of_integer(t) - n + (1 if n == 7 else 0)\n")],
+                          "Go -O sign extension of int7 shifts by 2"),
     "json-c-comma": (["C16"], [("lib/c/bitproto.c", "        if (k + 1 < descriptor->cap) {\n            BpJsonFormatString(ctx, \",\");", "        if (k + 2 < descriptor->cap) {\n            BpJsonFormatString(ctx, \",\");")],
                      "C JSON arrays lose the last comma"),
     "json-py-drop-proxy-filter": (["C16"], [("compiler/bitproto/renderer/impls/py/renderer.py", "if not k.startswith('{_enum_field_proxy_prefix}')", "if True")],
